@@ -28,12 +28,9 @@ def run_prop(prop: str, repo: Repo, tier: str) -> Report:
     mod = load(prop)
     if mod is None:
         raise AnalysisError(f"no check implemented for {prop}")
-    rep = Report(prop=prop, tier=tier, repo=repo)
-    rep.explanation = getattr(mod, "EXPLANATION", "")
-    rep.trusted = list(getattr(mod, "TRUSTED", ["python ast"]))
-    rep.assumptions = list(getattr(mod, "ASSUMPTIONS", []))
-    mod.run(repo, rep, tier)
-    return rep
+    from .decide import decide
+
+    return decide(prop, repo, tier)
 
 
 def check(prop: str, root: str, tier: str, seed: int) -> int:
